@@ -458,9 +458,11 @@ func (w *rewriter) rewriteNested(stmt ast.Stmt) {
 		if sel, ok := s.X.(*ast.SelectorExpr); ok && sel.Sel.Name == "containsQueue" && w.r.locks {
 			if id, ok := s.Key.(*ast.Ident); ok {
 				hash := &ast.SelectorExpr{X: &ast.ParenExpr{X: &ast.StarExpr{X: &ast.SelectorExpr{X: ast.NewIdent(id.Name), Sel: ast.NewIdent("digest")}}}, Sel: ast.NewIdent("Hash")}
-				w.point("R7")
 				alias := hookCall("Alias", &ast.BinaryExpr{X: strLit("cw:"), Op: token.ADD, Y: hash})
-				s.Body.List = append([]ast.Stmt{alias}, s.Body.List...)
+				// ... and having taken the item is a scheduling point: the
+				// request's context may be cancelled before the worker looks at it
+				taken := hookCall("Yield", strLit(w.point("R7")))
+				s.Body.List = append([]ast.Stmt{alias, taken}, s.Body.List...)
 			}
 		}
 	case *ast.SwitchStmt:
